@@ -7,6 +7,7 @@ headers accepted so far; the window length passed to a reservation is at most th
 `batches` is the list of batches `Results` returned along the run.
 -/
 import YouVerif.C18.ProofsLoop
+import YouVerif.C18.ProofsFetcher
 namespace YouVerif.C18
 
 /-- Results never hands out more than `maxResultsProcess` items. -/
@@ -404,6 +405,38 @@ theorem tick_expires_before_anything_else (k : Kind) (i : TickIn) (s : State) (p
     (hidle : i.idle = [(p, cap)]) (hm : i.master ∉ i.overdue) :
     (tick k i s).1 = guardedReserve (expire s k i.overdue).1 k i.limit p cap :=
   tick_state k i s p cap hn hidle hm
+
+/-! ### announcement/propagation path (you/fetcher/fetcher.go): dedupe discipline -/
+
+/-- **Imported at most once** (model of the fetcher's `queued`/queue/in-flight bookkeeping, ModelFetcher.lean; tied to
+the code only through the harness' fetcher oracle): for every interleaving of deliveries (any peers, any repetitions),
+import-loop iterations and import completions (successful or failed), a block is handed to the importer only when no
+earlier hand-over of it is still in flight and it is not imported yet. -/
+theorem imported_at_most_once (evs : List Fetcher.Ev) (h : Nat) :
+    (Fetcher.fstep (Fetcher.frun {} evs) .pop).2 = some h →
+    h ∉ (Fetcher.frun {} evs).inflight ∧ h ∉ (Fetcher.frun {} evs).chain := by
+  intro hp
+  have hi := Fetcher.finv_run Fetcher.finv_init evs
+  generalize Fetcher.frun {} evs = s at hp hi
+  simp only [Fetcher.fstep] at hp
+  cases hq : s.queue with
+  | nil => rw [hq] at hp; cases hp
+  | cons x q =>
+    rw [hq] at hp
+    simp only [] at hp
+    split at hp
+    · cases hp
+    · rename_i hc
+      have : x = h := by simpa using hp
+      subst this
+      exact ⟨hi.disjoint x (by rw [hq]; exact List.mem_cons_self), hc⟩
+
+/-- the seeded variant (forgetBlock at every pop) breaks it: second copy delivered while the first import is in flight
+(test by evaluation) -/
+example :
+    let evs : List Fetcher.Ev := [.deliver 7, .pop, .deliver 7]
+    let s := evs.foldl (fun s e => (Fetcher.fstepHoisted s e).1) ({} : Fetcher.FState)
+    (Fetcher.fstepHoisted s .pop).2 = some 7 ∧ 7 ∈ s.inflight := by decide
 
 /-! ### non-vacuity: a concrete disciplined run with faults (tests, evaluated by `decide`) -/
 
